@@ -37,8 +37,10 @@ PAYLOADS = {
 }
 
 SPELL_DIR = ["abs", "rel", "./rel", "rel/", "rel//", "rel/.", "a//rel",
-             "rel/sub/..", "x/../rel", ".", "..", "abs/"]
-SPELL_FILE = ["abs", "rel", "./rel", "a//rel", "x/../rel"]
+             "rel/sub/..", "x/../rel", ".", "..", "abs/", "via-linked-parent",
+             "linked-root", "rel-via-linked-parent"]
+SPELL_FILE = ["abs", "rel", "./rel", "a//rel", "x/../rel", "via-linked-parent",
+              "linked-root"]
 
 AXES = {
     "spelling": None,  # filled per payload
@@ -79,7 +81,15 @@ def resolve_path(spelling, cwdkind, L, payload_kind):
     """Return (cwd, path string) or None if the combination is infeasible."""
     R = os.path.join(L, NAME)
     Lname = os.path.basename(L)
+    lp = os.path.join(os.path.dirname(L), "lnk-parent")
     need = {
+        # the payload reached through a symbolic link: a linked ancestor
+        # directory, and a link that carries the payload's own name
+        "via-linked-parent": (None, os.path.join(lp, NAME)),
+        "rel-via-linked-parent": (os.path.dirname(L),
+                                  os.path.join("lnk-parent", NAME)),
+        "linked-root": (None, os.path.join(os.path.dirname(L), "aliases",
+                                           NAME)),
         "abs": (None, R), "abs/": (None, R + os.sep),
         "rel": (L, NAME), "./rel": (L, "./" + NAME), "rel/": (L, NAME + "/"),
         "rel//": (L, NAME + "//"), "rel/.": (L, NAME + "/."),
@@ -162,6 +172,10 @@ class InfoHashCheck:
         files = [(e[0], world.content(seed, e[2] if len(e) > 2 else i, e[1]))
                  for i, e in enumerate(PAYLOADS[pk])]
         world.materialize(files, L, sparse=vals["location"] == "copy")
+        os.symlink(L, os.path.join(os.path.dirname(L), "lnk-parent"))
+        os.makedirs(os.path.join(os.path.dirname(L), "aliases"))
+        os.symlink(os.path.join(L, NAME),
+                   os.path.join(os.path.dirname(L), "aliases", NAME))
         rp = resolve_path(vals["spelling"], vals["cwd"], L, pk)
         if rp is None:
             return {"skip": "infeasible spelling x cwd", "vals": vals}
